@@ -42,7 +42,7 @@ def run(res):
     import pyModelChecking.parser as PP
     rng = rng_for('C10')
     quick = res.tier == 'quick'
-    strings = V.fixed_strings() if not quick else [x for x in V.fixed_strings() if x[0] != 'long'][::3]
+    strings = V.fixed_strings() if not quick else ([x for x in V.fixed_strings() if x[0] != 'long'][::3] + [x for x in V.fixed_strings() if x[0] == 'long'][::4])
     strings += V.random_strings(rng, 5000 if quick else 60000)
     with warnings.catch_warnings():
         warnings.simplefilter('ignore')
